@@ -251,33 +251,46 @@ impl<Child: Executor> HashAggregate<Child> {
     /// Produce a result row from a finalized bucket.
     /// Produce a result row from a finalized bucket.
     fn bucket_to_row(&self, bucket: GroupBucket) -> RuntimeResult<Row> {
-        let mut values: Vec<DataType> =
-            Vec::with_capacity(bucket.key.len() + bucket.accumulators.len());
-
-        let num_group_keys = bucket.key.len();
-
-        // First, add group-by key values (cast to expected output type)
-        for (i, value) in bucket.key.into_iter().enumerate() {
-            let expected_type = self
-                .output_schema
-                .column(i)
-                .ok_or(RuntimeError::ColumnNotFound(i))?
-                .datatype();
-            let casted = value.try_cast(expected_type)?;
-            values.push(casted);
+        // The output row follows the select list: every aggregate sits at the position of its
+        // select item; the group keys fill the remaining positions in the order they are listed
+        // (the planner lists the selected keys first, in select order). Keys that are grouped
+        // by but not selected have no position and are dropped.
+        let mut finalized: Vec<DataType> = Vec::with_capacity(bucket.accumulators.len());
+        for acc in bucket.accumulators {
+            finalized.push(acc.finalize()?);
         }
 
-        // Then, add finalized aggregate values (cast to expected output type)
-        for (i, acc) in bucket.accumulators.into_iter().enumerate() {
-            let value = acc.finalize()?;
-            let col_idx = num_group_keys + i;
+        let num_columns = self.output_schema.num_columns();
+        let mut values: Vec<DataType> = Vec::with_capacity(num_columns);
+        let mut next_key = 0;
+
+        for col_idx in 0..num_columns {
             let expected_type = self
                 .output_schema
                 .column(col_idx)
-                .ok_or(RuntimeError::ColumnNotFound(i))?
+                .ok_or(RuntimeError::ColumnNotFound(col_idx))?
                 .datatype();
-            let casted = value.try_cast(expected_type)?;
-            values.push(casted);
+
+            // Is this the position of an aggregate?
+            let mut aggregate: Option<usize> = None;
+            for i in 0..self.aggregates.len() {
+                if self.aggregates[i].output_idx == col_idx {
+                    aggregate = Some(i);
+                }
+            }
+
+            let value = match aggregate {
+                Some(i) => finalized[i].clone(),
+                None => {
+                    let key = bucket
+                        .key
+                        .get(next_key)
+                        .ok_or(RuntimeError::ColumnNotFound(col_idx))?;
+                    next_key += 1;
+                    key.clone()
+                }
+            };
+            values.push(value.try_cast(expected_type)?);
         }
 
         Ok(Row::new(values.into_boxed_slice()))
